@@ -216,6 +216,24 @@ func cmdCheck(args []string) {
 			fu["unsupported"] = r.Unsupported
 			unsupported = append(unsupported, shortKey(r.Key)+": "+r.Unsupported)
 		}
+		if c := P.ContractFor(r.Key); c != nil {
+			var relaxed []string
+			if c.Config["panics"] == "allowed" {
+				relaxed = append(relaxed, "explicit panic() calls end the path instead of being obligations")
+			}
+			if c.Config["bounds"] == "unchecked" {
+				relaxed = append(relaxed, "index and slice bounds are not obligations (the contract speaks about executions that do not panic)")
+			}
+			if c.Config["divzero"] == "off" {
+				relaxed = append(relaxed, "integer division by zero is not an obligation")
+			}
+			if c.Config["frame"] == "any" {
+				relaxed = append(relaxed, "no frame: the function may write anything (callers havoc the whole heap)")
+			}
+			if len(relaxed) > 0 {
+				fu["relaxed"] = relaxed
+			}
+		}
 		funcsUnder = append(funcsUnder, fu)
 	}
 	for _, a := range lemmaRes {
